@@ -713,7 +713,7 @@ func runNRCase(c *engine.Ctx, nc nrCase) {
 		return n
 	}
 	switch nc.Inner {
-	case "honest", "bad-signature", "expired", "future", "wrapped-info", "rewrapped-info", "wrapper-flow", "enc-key-short", "enc-key-low-order":
+	case "honest", "bad-signature", "expired", "future", "wrapped-info", "rewrapped-info", "wrapper-flow", "enc-key-short", "enc-key-low-order", "id-field-other", "id-field-self":
 		newNode = mkNode("")
 		var fopt []nodeenrollment.Option
 		if nc.Inner == "wrapper-flow" {
@@ -745,6 +745,14 @@ func runNRCase(c *engine.Ctx, nc nrCase) {
 				in.NotBefore = timestamppb.New(now.Add(2 * time.Hour))
 				in.NotAfter = timestamppb.New(now.Add(26 * time.Hour))
 			})
+		case "id-field-other", "id-field-self":
+			// the signed bundle's own id field (unused by the library's client) names an existing record:
+			// another node's, or the record that authenticates this very rotation
+			target := w.other.node.K.KeyID
+			if x := w.rec(nc.EncBy); nc.Inner == "id-field-self" && x != nil {
+				target = x.node.K.KeyID
+			}
+			fetchReq = world.Resign(fetchReq, newNode.K.Priv, func(in *types.FetchNodeCredentialsInfo) { in.Id = target })
 		case "wrapped-info":
 			// signed bundle carries something in the wrapped-registration field
 			fetchReq = world.Resign(fetchReq, newNode.K.Priv, func(in *types.FetchNodeCredentialsInfo) {
@@ -984,7 +992,7 @@ func nrSeq(n int) []int {
 var nrInners = []string{"honest", "registered-self", "registered-other", "token-marshaled", "token-real", "bad-signature", "expired", "future"}
 
 // well-signed fresh requests for a new key with a 32-byte nonce that carry something unusual
-var nrExoticInners = []string{"wrapped-info", "rewrapped-info", "wrapper-flow", "enc-key-short", "enc-key-low-order"}
+var nrExoticInners = []string{"wrapped-info", "rewrapped-info", "wrapper-flow", "enc-key-short", "enc-key-low-order", "id-field-other", "id-field-self"}
 var nrPayloads = []string{"encrypted", "plain", "garbage", "truncated", "short-ct", "ct-bitflip", "ct-truncated"}
 
 func nrRandomCase(rng *rand.Rand) nrCase {
